@@ -104,6 +104,30 @@ func (g *gen) cbrtHard(p int) *apd.Decimal {
 	return decFromBig(co, exp, g.r.Intn(2) == 0)
 }
 
+// placeRoot shifts the exponent of x by a multiple of k (2 for Sqrt, 3 for Cbrt: the root keeps its
+// digits) so that the root lands at the edge of the context's exponent range: subnormal by 0..Precision+1
+// places, just inside, or at the overflow threshold.
+func (g *gen) placeRoot(c *apd.Context, x *apd.Decimal, k int64) {
+	if x.Form != apd.Finite || x.IsZero() {
+		return
+	}
+	adj := (x.NumDigits() + int64(x.Exponent)) / k // about the adjusted exponent of the root, plus one
+	var target int64
+	switch g.r.Intn(4) {
+	case 0, 1:
+		target = int64(c.MinExponent) - int64(g.r.Intn(int(c.Precision)+2))
+	case 2:
+		target = int64(c.MinExponent) + int64(g.r.Intn(3))
+	default:
+		target = int64(c.MaxExponent) + int64(g.r.Intn(3)) - 1
+	}
+	ne := int64(x.Exponent) + (target+1-adj)*k
+	if ne > 90000 || ne < -90000 {
+		return
+	}
+	x.Exponent = int32(ne)
+}
+
 func (rn *runner) streamRoots(g *gen) {
 	for i := 0; i < rn.n; i++ {
 		c := g.rootCtx()
@@ -114,6 +138,9 @@ func (rn *runner) streamRoots(g *gen) {
 				x = g.decimal(c, false)
 			} else {
 				x = g.sqrtHard(p)
+			}
+			if g.r.Intn(6) == 0 {
+				g.placeRoot(c, x, 2)
 			}
 			rn.ctxCase("sqrt", c, x, nil, 0)
 		} else {
@@ -128,6 +155,9 @@ func (rn *runner) streamRoots(g *gen) {
 				}
 			} else {
 				x = g.cbrtHard(p)
+			}
+			if g.r.Intn(6) == 0 {
+				g.placeRoot(c, x, 3)
 			}
 			rn.ctxCase("cbrt", c, x, nil, 0)
 		}
@@ -234,6 +264,19 @@ func (rn *runner) streamTraps(g *gen, opList []string) {
 		}
 		var x, y *apd.Decimal
 		switch {
+		case (op == "sqrt" || op == "cbrt") && g.r.Intn(2) == 0:
+			// exact and nearly exact roots, often placed at the edge of the exponent range: the paths
+			// where a root function decides about flags and error on its own
+			k := int64(2)
+			if op == "sqrt" {
+				x = g.sqrtHard(int(c.Precision))
+			} else {
+				x = g.cbrtHard(int(c.Precision))
+				k = 3
+			}
+			if g.r.Intn(2) == 0 {
+				g.placeRoot(c, x, k)
+			}
 		case composite:
 			x = g.smallOperand(c)
 			if def.arity == 2 {
@@ -438,6 +481,24 @@ func (rn *runner) streamTransLog(g *gen) {
 				exp = -int64(nd) + int64(g.r.Intn(3))
 			}
 			x = decFromBig(co, exp, g.r.Intn(3) == 0)
+			if g.r.Intn(12) == 0 {
+				// the algorithm's own thresholds: |x| at, just above and just below a multiple of 23
+				// (working precision = |x|/23, decided through a float64), up to and beyond 23*1000
+				k := int64(p + g.r.Intn(40))
+				switch g.r.Intn(4) {
+				case 0:
+					k = int64(g.pick(250, 500, 997, 998, 999, 1000, 1001))
+				case 1:
+					k = int64(1 + g.r.Intn(1100))
+				}
+				far := int64(g.pick(1, 5, 16, 17, 20, 30, 40))
+				co := new(big.Int).Mul(big.NewInt(23*k), pow10(int(far)))
+				co.Add(co, big.NewInt(int64(g.r.Intn(3)-1)))
+				x = decFromBig(co, -far, g.r.Intn(2) == 0)
+				if g.r.Intn(3) == 0 {
+					c.MaxExponent, c.MinExponent = 100000, -100000
+				}
+			}
 		case "ln", "log10":
 			switch g.r.Intn(6) {
 			case 0, 1: // near 1: 1 +- 10^-k
